@@ -83,15 +83,24 @@ SAFE = sorted(set(map(ord, "ABCDEFGHIJKLMNOPQRSTUVWXYZabcdefghijklmnopqrstuvwxyz
 def rng(c, a, b): return z3.And(c >= a, c <= b)
 def is_safe(c): return z3.Or(rng(c, 65, 90), rng(c, 97, 122), rng(c, 48, 57), c == 95, c == 46, c == 45, c == 126, c == 47)
 def hexd(d): return z3.If(d < 10, 48 + d, 55 + d)
-def quote_model(src):
-    e = [z3.If(is_safe(src.ch[j]), 1, 3) for j in range(src.cx.CAP)]
+ALWAYS_SAFE = "ABCDEFGHIJKLMNOPQRSTUVWXYZabcdefghijklmnopqrstuvwxyz0123456789_.-~"
+def quote_model(src, safe="/", **unsupported):
+    """urllib.parse.quote(string, safe='/') on ASCII text: the arguments liquer passes are honoured (a different `safe` set changes
+    the model), anything else (encoding=, errors=) is not modelled"""
+    if unsupported or not isinstance(safe, str): raise Unsupported("quote() called with arguments the model does not cover: %r %r" % (safe, unsupported))
+    keep = sorted(set(map(ord, ALWAYS_SAFE + safe)))
+    def safe_c(c): return z3.Or([c == k for k in keep])
+    e = [z3.If(safe_c(src.ch[j]), 1, 3) for j in range(src.cx.CAP)]
     def emit(j, k):
         c = src.ch[j]
-        return z3.If(is_safe(c), c, [I(37), hexd(c / 16), hexd(c % 16)][k])
+        return z3.If(safe_c(c), c, [I(37), hexd(c / 16), hexd(c % 16)][k])
     return expand(src, e, emit, 3)
 def ishex(c): return z3.Or(rng(c, 48, 57), rng(c, 65, 70), rng(c, 97, 102))
 def hexval(c): return z3.If(rng(c, 48, 57), c - 48, z3.If(rng(c, 65, 70), c - 55, c - 87))
-def unquote_model(src):
+def unquote_model(src, *a, **unsupported):
+    if a or unsupported: raise Unsupported("unquote() called with arguments the model does not cover")
+    return _unquote_model(src)
+def _unquote_model(src):
     CAP = src.cx.CAP
     esc = []; skip = []
     for j in range(CAP):
@@ -280,7 +289,10 @@ class Interp:
                 raise Unsupported(f"method {f.attr}")
             if isinstance(f, ast.Name):
                 args = [self.expr(a, st) for a in e.args]
-                if f.id in self.models: return self.models[f.id](lift(cx, args[0]))
+                if f.id in self.models:
+                    kwargs = {k.arg: self.expr(k.value, st) for k in e.keywords}
+                    if any(is_sym(v) for v in list(kwargs.values()) + args[1:]): raise Unsupported("symbolic extra argument to " + f.id)
+                    return self.models[f.id](lift(cx, args[0]), *args[1:], **kwargs)
                 if f.id == st["fn"].__name__:
                     if st["depth"] >= self.depth_bound:
                         cx.unwind.append(z3.And(st["live"], z3.Not(st["exc"])))
